@@ -66,3 +66,13 @@ Example C02_example :
   sticky [b1; a1; a10] 250 = Some [98;58;49] /\ sticky [a10; a1; b1] 250 = Some [98;58;49] /\
   sticky [b1; a1; a10] 300 = Some [97;58;49].
 Proof. exact (conj eq_refl (conj eq_refl eq_refl)). Qed.
+
+(* Reload histories on one BalanceRR (kind 3 inputs: Init, sticky picks interleaved with BalanceRR.Update — adds,
+   removals, weight changes, reordering — and SetAvail): every pick of the model is the owner of the hash residue in
+   the key-sorted eligible list of the CURRENT configuration, i.e. the answer of a freshly built balancer; by
+   C02_order_independent the order in which the history left the list does not matter. *)
+Theorem C02_prop_of_model_history : forall c ops conf os,
+  dec_hist c ops = Some (conf, os) ->
+  prop_C02 (VL [VZ 3; c; ops]) (run_C02 (VL [VZ 3; c; ops])) = true.
+Proof. exact prop_of_model_hist. Qed.
+Print Assumptions C02_prop_of_model_history.
